@@ -155,10 +155,16 @@ def handler_src(prog, part, m, in_trait):
             "%s        %s\n    }\n") % (m["name"], ctx_ty, params, prog["id"], part["id"], m["name"], m["kind"], args, ctx_fn, mutc, fin)
 
 
+def imod(part):
+    """Module path of an interface: `i1`, or `i1::iface` for programs whose interface modules are nested (family "nested":
+    the module paths of all interfaces end in the same segment)."""
+    return (part["id"] + "::iface") if part.get("_nested") else part["id"]
+
+
 def msg_path(part, kind):
     if part.get("_generic"):      # generic programs reach their message types through the Api traits (aliases, see generic_aliases)
         return "M%s%s" % (part["id"].capitalize(), kind.capitalize())
-    return ("sv::" if part["id"] == "own" else "%s::sv::" % part["id"]) + MSG_TY[kind]
+    return ("sv::" if part["id"] == "own" else "%s::sv::" % imod(part)) + MSG_TY[kind]
 
 
 def wrap_path(prog, kind):
@@ -185,7 +191,7 @@ def generic_aliases(prog):
         else:
             tr = p["id"].capitalize()
             for k in ENUM_KINDS:      # the interface's messages as the contract type instantiates them
-                o.append("    pub type M%s%s = <CtrT as %s::sv::InterfaceMessagesApi>::%s;\n" % (tr, k.capitalize(), p["id"], api[k]))
+                o.append("    pub type M%s%s = <CtrT as %s::sv::InterfaceMessagesApi>::%s;\n" % (tr, k.capitalize(), imod(p), api[k]))
     return "".join(o) + "\n"
 
 
@@ -236,8 +242,8 @@ def remote_src(prog):
                     trait_mod = "sv"
                 else:
                     assoc = ", ItemT = GenVal" if (generic and uses_gen(part)) else ""
-                    hty = ctr if handle == "contract" else "dyn %s::%s<Error = ContractError%s>" % (part["id"], part["id"].capitalize(), assoc)
-                    trait_mod = "%s::sv" % part["id"]
+                    hty = ctr if handle == "contract" else "dyn %s::%s<Error = ContractError%s>" % (imod(part), part["id"].capitalize(), assoc)
+                    trait_mod = "%s::sv" % imod(part)
                 o.append("        { %slet addr = Addr::unchecked(\"target%d\"); let funds = verif_rrt::funds_pool(%d);\n"
                          "          let remote: Remote<%s> = %s;\n" % (
                              lets, n % 3, n, hty, "Remote::new(addr.clone())" if val == 0 else "Remote::borrowed(&addr)"))
@@ -351,7 +357,7 @@ def mt_src(prog):
         return ", ".join("%s.clone()" % rn(a) for a in m["args"])
 
     def call(p, m):      # fully qualified: handlers of different parts / kinds may share names
-        tr = "sv::mt::CtrProxy" if p["id"] == "own" else "%s::sv::mt::%sProxy" % (p["id"], p["id"].capitalize())
+        tr = "sv::mt::CtrProxy" if p["id"] == "own" else "%s::sv::mt::%sProxy" % (imod(p), p["id"].capitalize())
         a = args(m)
         return "%s::%s(c%s)" % (tr, m["near"], (", " + a) if a else "")
 
@@ -362,7 +368,7 @@ def mt_src(prog):
          "        use sylvia::cw_multi_test::Executor;\n        use sylvia::cw_std::{Addr, Binary, WasmMsg};\n"
          "        use sv::mt::{CodeId, CtrProxy};\n        use verif_rrt::mt;\n"]
     for p in ifaces:
-        o.append("        use %s::sv::mt::%sProxy;\n" % (p["id"], p["id"].capitalize()))
+        o.append("        use %s::sv::mt::%sProxy;\n" % (imod(p), p["id"].capitalize()))
     o.append("        for (hi, h) in hists.as_array().cloned().unwrap_or_default().iter().enumerate() {\n"
              "          // a panic ends this history only, and is recorded as an observation of the operation it happened in\n"
              "          let cur = std::cell::Cell::new((0usize, serde_json::Value::Null));\n"
@@ -494,6 +500,9 @@ def program_src(prog):
     if generic:
         for p in prog["parts"]:
             p["_generic"] = True
+    if prog.get("family") == "nested":
+        for p in prog["parts"]:
+            p["_nested"] = True
     ctr_ty = "Ctr::<GenVal>" if generic else "Ctr"
     o = []
     o.append("#[allow(dead_code, unused_variables, unused_imports, clippy::all)]\npub mod %s {\n" % mod)
@@ -504,13 +513,15 @@ def program_src(prog):
              "    use verif_rrt::GenVal;\n\n")
     for p in ifaces:
         tr = p["id"].capitalize()
-        o.append("    pub mod %s {\n        use super::*;\n        use sylvia::interface;\n\n        #[interface]\n"
+        nested = bool(p.get("_nested"))
+        o.append("    pub mod %s {%s\n        use %ssuper::*;\n        use sylvia::interface;\n\n        #[interface]\n"
                  "        #[sv::custom(msg=sylvia::cw_std::Empty, query=sylvia::cw_std::Empty)]\n"
                  "        pub trait %s {\n            type Error: From<StdError>;\n%s\n" % (
-                     p["id"], tr, "            type ItemT: sylvia::types::CustomMsg;\n" if generic and uses_gen(p) else ""))
+                     p["id"], " pub mod iface {" if nested else "", "super::" if nested else "",
+                     tr, "            type ItemT: sylvia::types::CustomMsg;\n" if generic and uses_gen(p) else ""))
         for m in p["methods"]:
             o.append("    " + handler_src(prog, p, m, True).replace("\n        ", "\n            "))
-        o.append("        }\n    }\n\n")
+        o.append("        }\n    }%s\n\n" % (" }" if nested else ""))
     o.append(override_src(prog))
     gen_hdr = "<T>" if generic else ""
     gen_where = " where T: sylvia::types::CustomMsg + 'static" if generic else ""
@@ -518,13 +529,13 @@ def program_src(prog):
     for p in ifaces:
         tr = p["id"].capitalize()
         o.append("    impl%s %s::%s for Ctr%s%s {\n        type Error = ContractError;\n%s" % (
-            gen_hdr, p["id"], tr, gen_hdr, gen_where, "        type ItemT = T;\n" if generic and uses_gen(p) else ""))
+            gen_hdr, imod(p), tr, gen_hdr, gen_where, "        type ItemT = T;\n" if generic and uses_gen(p) else ""))
         for m in p["methods"]:
             o.append("    " + handler_src(prog, p, m, False).replace("\n    ", "\n        ").rstrip(" "))
         o.append("    }\n\n")
     o.append("    #[sylvia::entry_points%s]\n    #[sylvia::contract]\n    #[sv::error(ContractError)]\n" % ("(generics<GenVal>)" if generic else ""))
     for p in ifaces:
-        o.append("    #[sv::messages(%s as %s)]\n" % (p["id"], p["id"].capitalize()))
+        o.append("    #[sv::messages(%s as %s)]\n" % (imod(p), p["id"].capitalize()))
     for k in prog.get("overrides", []):
         o.append("    #[sv::override_entry_point(%s=ov::%s(verif_rrt::OvMsg))]\n" % (k, k))
     o.append("    impl%s Ctr%s%s {\n        pub const fn new() -> Self {\n            %s\n        }\n" % (
@@ -539,7 +550,7 @@ def program_src(prog):
     # --- vtable: the generic driver's access to the generated types
     o.append("    fn lists() -> Vec<(&'static str, &'static str, Vec<String>)> {\n        vec![\n")
     for p in prog["parts"]:
-        pre = "sv::" if p["id"] == "own" else "%s::sv::" % p["id"]
+        pre = "sv::" if p["id"] == "own" else "%s::sv::" % imod(p)
         for k in ENUM_KINDS:
             o.append("            (\"%s\", \"%s\", %s%s_messages().iter().map(|s| s.to_string()).collect()),\n" % (p["id"], k, pre, EP_FN[k]))
     o.append("        ]\n    }\n\n")
